@@ -9,6 +9,7 @@
 //! without an answer).
 
 mod ops;
+mod ops2;
 mod place;
 mod util;
 
